@@ -818,3 +818,118 @@ class FieldNormalization(Contract):
 
     def frame_ok(self, I, inp, obj, name):
         return False
+
+
+# ----------------------------------------------------------------------------------------------- extended conditions: tree building, references
+COR = "sigma.correlations"
+
+
+@register
+class CorrelationItemFromParsed(Contract):
+    """CorrelationConditionItem.from_parsed: NOT keeps exactly the operand that follows the operator; AND / OR keep EVERY operand of the
+    flat token list (the tokens at even positions), in order"""
+    id = "C10.CorrelationConditionItem.from_parsed"
+    target = f"{COR}:CorrelationConditionItem.from_parsed"
+    props = ("C10",)
+    cases = tuple((cls, n) for cls in ("CorrelationConditionAND", "CorrelationConditionOR") for n in (2, 3, 4)) + (("CorrelationConditionNOT", 1),)
+    assumed = ["the token list is a plain list (the ParseResults wrapping of pyparsing is external: its [0] is that list)"]
+
+    def setup(self, E):
+        E.external_isinstance["pyparsing.ParseResults"] = lambda I, v: isinstance(v, SObj) and v.cls == "ParseResults"
+        E.external_isinstance["pyparsing.results.ParseResults"] = lambda I, v: isinstance(v, SObj) and v.cls == "ParseResults"
+
+    def args(self, I, case):
+        cls, n = case
+        ops_ = [SObj("Operand", {"n": i}) for i in range(n)]
+        if cls.endswith("NOT"):
+            toks = ["not", ops_[0]]
+        else:
+            toks = []
+            for i, o in enumerate(ops_):
+                if i:
+                    toks.append("and" if cls.endswith("AND") else "or")
+                toks.append(o)
+        return {"self": ClassRef(I.E.index.lookup(f"{COR}:{cls}")), "args": ["text", 0, toks], "ops": ops_, "case": case}
+
+    def post(self, I, inp, r):
+        cls, n = inp["case"]
+        r = I.force(r) if not isinstance(r, list) else r
+        ok = isinstance(r, list) and len(r) == 1 and isinstance(r[0], SObj) and getattr(r[0].cls, "name", None) == cls
+        I.ctx.require(ok, f"one {cls} node")
+        if ok:
+            a = r[0].fields.get("args")
+            a = I.force(a) if not isinstance(a, list) else a
+            I.ctx.require(isinstance(a, list) and len(a) == n and all(x is y for x, y in zip(a, inp["ops"])), "its arguments are the operands, each once, in order (operator tokens skipped)")
+
+    def frame_ok(self, I, inp, obj, name):
+        return False
+
+
+@register
+class ExtendedReferencedRules(Contract):
+    """SigmaExtendedCorrelationCondition.get_referenced_rules: every rule identifier of the tree, once, in the order of first appearance"""
+    id = "C10.SigmaExtendedCorrelationCondition.get_referenced_rules"
+    target = f"{COR}:SigmaExtendedCorrelationCondition.get_referenced_rules"
+    props = ("C10", "C09")
+    cases = ("single", "and", "nested", "repeated")
+
+    def args(self, I, case):
+        idx = I.E.index
+        ref = lambda n: SObj(idx.lookup(f"{COR}:SigmaRuleReference"), {"reference": n}, lazy=True)
+        node = lambda c, *a: SObj(idx.lookup(f"{COR}:CorrelationCondition{c}"), {"args": list(a)}, lazy=True)
+        tree, want = {"single": (ref("a"), ["a"]), "and": (node("AND", ref("b"), ref("a")), ["b", "a"]),
+                      "nested": (node("OR", node("NOT", ref("c")), node("AND", ref("a"), node("NOT", node("OR", ref("d"), ref("b"))))), ["c", "a", "d", "b"]),
+                      "repeated": (node("AND", ref("a"), node("OR", ref("b"), ref("a")), ref("b"), ref("c")), ["a", "b", "c"])}[case]
+        me = SObj(idx.lookup(f"{COR}:SigmaExtendedCorrelationCondition"), {"_parsed": tree}, lazy=True)
+        return {"self": me, "args": [], "want": want}
+
+    def post(self, I, inp, r):
+        r = I.force(r) if not isinstance(r, list) else r
+        I.ctx.require(r == inp["want"], f"identifiers once each, in order of first appearance: {inp['want']}")
+
+    def frame_ok(self, I, inp, obj, name):
+        return False
+
+
+@register
+class RuleReferenceResolve(Contract):
+    """SigmaRuleReference.resolve: the rule the collection finds under the reference AS WRITTEN; aliases resolve every reference of their mapping"""
+    id = "C09.SigmaRuleReference.resolve"
+    target = f"{COR}:SigmaRuleReference.resolve"
+    props = ("C09", "C10")
+
+    def args(self, I):
+        asked = []
+        found = SObj("Rule", {})
+        ref = I.fresh("reference", "str")
+        col = SObj("Collection", {"__getitem__": NativeFn("__getitem__", lambda I2, a, k: (asked.append(a[0]), found)[1])})
+        me = SObj(I.E.index.lookup(f"{COR}:SigmaRuleReference"), {"reference": ref}, lazy=True)
+        return {"self": me, "args": [col], "asked": asked, "found": found, "ref": ref}
+
+    def post(self, I, inp, r):
+        I.ctx.require(inp["self"].fields.get("rule") is inp["found"] and len(inp["asked"]) == 1 and inp["asked"][0] is inp["ref"], "rule = collection[reference]")
+
+    def frame_ok(self, I, inp, obj, name):
+        return obj is inp["self"] and name == "rule"
+
+
+@register
+class FieldAliasResolve(Contract):
+    id = "C09.SigmaCorrelationFieldAlias.resolve_rule_references"
+    target = f"{COR}:SigmaCorrelationFieldAlias.resolve_rule_references"
+    props = ("C09", "C10")
+    cases = (0, 1, 3)
+    __doc__ = "SigmaCorrelationFieldAlias.resolve_rule_references: every reference of the mapping is resolved against the given collection, each once"
+
+    def args(self, I, case):
+        seen = []
+        col = SObj("Collection", {})
+        refs = [SObj("Ref", {"i": i, "resolve": NativeFn("resolve", (lambda i: lambda I2, a, k: seen.append((i, a[0])))(i))}) for i in range(case)]
+        me = SObj(I.E.index.lookup(f"{COR}:SigmaCorrelationFieldAlias"), {"alias": "x", "mapping": {r: f"field{i}" for i, r in enumerate(refs)}}, lazy=True)
+        return {"self": me, "args": [col], "seen": seen, "col": col, "n": case}
+
+    def post(self, I, inp, r):
+        I.ctx.require([i for i, _ in inp["seen"]] == list(range(inp["n"])) and all(c is inp["col"] for _, c in inp["seen"]), "each reference resolved once against this collection")
+
+    def frame_ok(self, I, inp, obj, name):
+        return False
